@@ -47,6 +47,18 @@ CHECKS = {
  'C14': ('bounded-exhaustive edge-alphabet enumeration + explicit-state BFS over Add histories (state = counter vector) with HistogramQuantile evaluated for every rank in every state',
          'LinearHist nbins 1..5 (50) x 5 ranges and 108 LogHist shapes: single Add of every edge +-2 ulp, mid-points, 16 positions in the strip below the first edge, far values; all Add histories to depth 5 (6) over a 7-value alphabet; 500-Add structured streams; BinToValue monotone and interpolating.',
          'rank convention (0- or 1-based) left open by the statement: either accepted consistently per state; 4-ulp edge ambiguity (statement)', '4/C14'),
+ 'C12': ('bounded-exhaustive sample x kernel x bandwidth x boundary-configuration enumeration of the real KDE on an argument lattice against independently evaluated, fully folded kernel sums',
+         'Every multiset of size 1..3 over 4 values plus structured samples of 10/40 values, weighted and not, 3 kernels, 4 bandwidths, 16 boundary configurations (none, lower, upper, both; touching/0.5h/10h), ~150-400 arguments each including every kink and its images +-1 ulp: PDF/CDF vs formula, monotone, limits, zero outside, per-cell integral = CDF difference, Bounds mass, lazy Scott bandwidth, Scott/Silverman formulas.',
+         'needle-thin doubly bounded supports (< h/50) and a delta kernel with an upper boundary one ulp above a sample are outside the explored domain (see DESIGN 3a)', '4/C12'),
+ 'C15': ('bounded-exhaustive design enumeration of LinearLeastSquares/PolynomialRegression/LOESS against exact big.Rat normal-equation solutions of the float64 design matrix',
+         'Every subset of size 3..6 (8) of an 8-point lattice x2 scalings + n=40, 7 generating polynomials + a table, degrees 0..6, two non-polynomial bases, weighted/unweighted: parameters vs exact optimum, backward-error orthogonality, no-descent perturbations, F vs coefficients; LOESS on every subset of size 4..6 (7), degrees 0..2, every window size, every permutation for n<=5 (6): exact tricube local fit, locality, order independence, unmodified inputs.',
+         'designs with exact Gram condition number > 1e8 are counted and skipped ("well-conditioned" decided by the reference)', '4/C15'),
+ 'C16': ('bounded-exhaustive domain x argument x clamp-configuration enumeration of Linear/Log/QQ against exact rational and 320-bit logarithm references',
+         'All 169 (529) ordered (Min,Max) pairs over signed magnitudes 1e-12..1e12 and 0, ~27 arguments inside and to 100 widths outside, 8 y values, clamp off/on/off/on transitions, NewLog on every (min,max) x 6 bases, 64 QQ pairings.',
+         'finite arguments; numeric (not bitwise) comparison of -0/+0', '4/C16'),
+ 'C17': ('exhaustive enumeration of monotone step tickers x options x guesses for FindLevel; bounded-exhaustive domain x option lattice for Ticks/Nice against definitional tick sets',
+         'FindLevel: all 715 non-increasing count functions on levels -4..4 x Max 0..3 x 121 level-limit pairs x 17 guesses (5.9M calls) against the brute-force lowest admissible level. Ticks/Nice: 12 widths x 9 centres x 6 bases x Max 1..20 x 4 level limits (Linear), 6 x 7 x 5 bases x 2 signs x Max 1..20 x 3 limits (Log): ascending, inside, complete, nice, finest level, major in minor, CountTicks laws, Nice never shrinks / finite / idempotent / ends.',
+         'tick-set membership has a 1e-9-width ambiguity zone at the domain ends; Nice Max>=3 clauses asserted where a covering level exists', '4/C17'),
 # --- end of table ---
 }
 NOT_BUILT = 'check not built yet (work in progress; no claim made)'
